@@ -82,13 +82,32 @@ pub fn parse_line(out: &mut dyn Write, bytes: &[u8], hist: &mut BTreeMap<String,
     writeln!(out, "FP\t{}\t{}", hex(bytes), res).unwrap();
 }
 
+/// canonical FEN of a position reached by legal play: must be accepted (judged at spec level by the driver)
+pub fn reached_line(out: &mut dyn Write, bytes: &[u8]) {
+    let tag = match catch_unwind(AssertUnwindSafe(|| chess_movegen::fen::parse_fen(bytes))) {
+        Ok(Ok(_)) => "OK".to_string(),
+        Ok(Err(e)) => format!("E:{}", err_code(&e)),
+        Err(_) => "TRAP".to_string(),
+    };
+    writeln!(out, "FR\t{}\t{}", hex(bytes), tag).unwrap();
+}
+
 pub fn run(out: &mut dyn Write, rng: &mut Rng, n: usize, mutation_seeds: usize) {
     let mut hist: BTreeMap<String, u64> = BTreeMap::new();
     // stream 1: writer output of reachable boards + structured random FEN text
     let mut valid: Vec<String> = CORPUS.iter().map(|s| s.to_string()).collect();
-    crate::chess::positions(rng, n / 4, |_rng, b, _l, _| valid.push(b.to_string()));
+    // FEN text of the reached boards, assembled by the harness itself (not through the Display under test)
+    let mut reached: Vec<String> = Vec::new();
+    crate::chess::positions(rng, n / 4, |_rng, b, _l, _| {
+        valid.push(b.to_string());
+        reached.push(crate::chess::xfen(b));
+    });
     for s in &valid {
         parse_line(out, s.as_bytes(), &mut hist);
+    }
+    // stream 1a: "every canonical FEN of a legally reachable position is accepted"
+    for s in &reached {
+        reached_line(out, s.as_bytes());
     }
     for _ in 0..n / 4 {
         let men = if rng.chance(1, 3) { 40 } else { 12 };
@@ -311,6 +330,7 @@ pub fn replay(out: &mut dyn Write, f: &[&str]) {
     let mut hist = BTreeMap::new();
     match f[0] {
         "FP" => parse_line(out, &unhex(f[1]), &mut hist),
+        "FR" => reached_line(out, &unhex(f[1])),
         "BL" => builder_line(out, &f[1].split(' ').filter(|x| !x.is_empty()).map(|x| x.to_string()).collect::<Vec<_>>()),
         _ => {}
     }
